@@ -58,6 +58,9 @@ impl Default for Obs {
 }
 
 impl Obs {
+    pub fn violations_len(&self) -> usize {
+        self.violations.len()
+    }
     pub fn new() -> Self {
         Obs {
             evals: 0,
